@@ -334,6 +334,7 @@ def run(chk):
     _sigpipe_rule(chk, prog)
     _register_rule(chk, prog)
     _sideowner_rule(chk, prog)
+    _markevent_rule(chk, prog)
 
 
 def _solewaiter_rule(chk, prog):
@@ -588,3 +589,44 @@ def _sideowner_rule(chk, prog):
                               "`%s` clears the slot on a path that never looked at it: when the detaching fiber was cancelled and another "
                               "fiber has since registered there, the newcomer's registration is wiped and no event is ever delivered to it" % x.text()[:60])
     chk.floor(rule, 8, n)
+
+
+def _markevent_rule(chk, prog):
+    """The collector calls every pending operation's callback with JANET_ASYNC_EVENT_MARK so that it can mark what its
+    state holds.  That event says nothing about the descriptor.  A callback that lets MARK fall into its completion
+    code finishes the operation during a collection: net/connect returned a stream that was not connected yet."""
+    rule = "C16-MARKEVENT"
+    chk.rule(rule, "no event-loop callback can reach a completion (janet_schedule / janet_cancel / janet_async_end) from the collector's MARK event")
+    ACTIONS = ("janet_schedule", "janet_schedule_signal", "janet_schedule_soon", "janet_cancel", "janet_async_end", "janet_async_in_flight")
+    n = 0
+    for fn in prog.all_funcs():
+        ps = fn.params
+        if not (len(ps) == 2 and "JanetAsyncEvent" in ps[1]["t"] and "JanetFiber" in ps[0]["t"]):
+            continue
+        n += 1
+        chk.instance(rule)
+        chk.analysed(fn)
+        labelled = [(b, b.label.text()) for b in fn.blocks.values() if b.label is not None and b.label.k in ("case", "default")]
+        if not labelled:
+            raise AnalysisBroken("%s: no switch over the event" % fn.name)
+        start = [b for b, t in labelled if "JANET_ASYNC_EVENT_MARK" in t] or [b for b, t in labelled if t.startswith("default")]
+        if not start:
+            # no arm for MARK and no default: control goes past the switch
+            sw = [x for x in fn.nodes if x.k == "switch"]
+            raise AnalysisBroken("%s: neither a MARK arm nor a default arm" % fn.name) if not sw else None
+        hit = None
+        for b0 in start:
+            for bid in flow.reachable_from(fn, b0.id):
+                blk = fn.blocks[bid]
+                for x in blk.elems:
+                    if x.k == "call" and x.callee in ACTIONS and hit is None:
+                        hit = x
+        if hit is None:
+            chk.ok(rule, "%s: MARK leads to no completion" % fn.name)
+        else:
+            chk.violation(rule, fn.tu.name, fn.name, "mark-completes", hit.loc,
+                          "in %s the collector's MARK event %s reaches `%s`: a collection while the operation is pending completes it "
+                          "with whatever the descriptor says at that moment (net/connect returns an unconnected stream) and detaches "
+                          "the fiber from inside the mark phase" % (fn.name, "(handled by the default arm)" if "MARK" not in start[0].label.text() else "",
+                                                                   hit.text()[:50]))
+    chk.floor(rule, 5, n)
